@@ -57,6 +57,10 @@ CLAIMED = {
   "Symbolic fault enumeration over the real persistSnapshotDirect / prepareIntroducePersist / loadSegment / introducePersist / Snapshot.WriteTo with a model directory in which every Persist and Load may fail (symbolic choice per call): success implies segments persisted before the snapshot, commit only after the snapshot item is complete, in-memory segments swapped for loaded copies; failure implies a non-nil error, nothing committed, no snapshot item, no leaked handle, readers unaffected; a fault-free retry then succeeds and covers everything. loadSegment failure paths release their handle. Partial files on the real file system are C13; deletion-policy retry is C11.",
   "The introducer goroutine is modelled as running introducePersist to completion at the moment the persister hands over the loaded segments (one legal schedule). Outside tier 1: persisterLoop's error branch (waiting safe Batch calls receive the error, AsyncError fires, later acknowledgement covers earlier batches), the merger's error handling around Writer.merge, hangs (need goroutine scheduling). Model-only: a failing Persist/Load cannot be provoked on the real directory natively.",
   "DESIGN.md section 5 C14"),
+ "C07": (
+  "Bounded symbolic model checking of the boolean iterator protocol over the real ConjunctionSearcher, DisjunctionSliceSearcher, DisjunctionHeapSearcher (container/heap from source), BooleanSearcher, OrderedSearcherList and DocumentMatchPool: for 9 query shapes (and / or / min-should / must-not, nesting depth 2), every assignment of document numbers to the leaf postings (arbitrary overlaps) and every forward driver sequence of Next/Advance calls, the documents returned are exactly those the query's meaning selects, in increasing order, none twice, and no match object is recycled while the caller holds it.",
+  "Bounds: <= 3 leaves x 2 postings (3 thorough), <= 3 driver calls (4 thorough), min-should 0..2 (3); document numbers are bytes (the searchers only compare and copy document numbers, so every order pattern of the numbers involved is covered). Leaves are model posting lists obeying the Searcher contract; the first driver call is Next, as in every library caller (Advance as the very first call on a BooleanSearcher with a required should clause loses a posting on the pinned tree — an observation outside the public query path, see DESIGN.md). Outside: phrase, multi-phrase, prefix/wildcard/regexp/fuzzy/term-range expansion (vellum automata), geo (float trigonometry), query-string analysis, depth > 2; numeric/date ranges are C10; postings across segments and query optimisations are C08.",
+  "DESIGN.md section 5 C07"),
 }
 
 NA = {
